@@ -4,6 +4,8 @@ ASSUME JsonSerialize(IOEnv.OUT, [lim |-> LimCases, aw |-> AWCases, cmp |-> CmpCa
                                  hist |-> {HistCase(h, d) : h \in HistCalls(4), d \in {1, 2}} \cup {HistCase(h, 1) : h \in HistCalls(3)},
                                  rt |-> RTCases(5), rl |-> RLCases, awr |-> AWRCases,
                                  samp |-> {SampCase(h) : h \in MonoCalls(5)},
+                                 timemode |-> {TimeCase(h, 3) : h \in TimeModeCalls(4, 3)} \cup {TimeCase(h, 2) : h \in TimeModeCalls(4, 2)},
+                                 timemode_rewind |-> {TimeCase(h, 3) : h \in TimeModeRewinds(3)},
                                  gate |-> GateCases, adj |-> AdjCases, awadj |-> AWAdjCases, awlock |-> AWLockSane, sorted |-> SLCases,
                                  degenerate |-> Cardinality(DegenerateCases)])
 ====
